@@ -275,7 +275,7 @@ class Env:
     def flat_events(self, body, self_adt=None, world=None, max_depth=6):
         """events of body with crate-local callees inlined; each event carries top_bb (block of `body`) and chain"""
         ctx = self.ctx(body, self_adt, world)
-        key = ("flat", id(ctx))
+        key = ("flat", id(ctx), max_depth)
         if key in self._events:
             return self._events[key]
         out = []
